@@ -27,6 +27,7 @@ Reading guide — property clause ↦ theorem:
 * instance: exactly the current state is highlighted; class: nothing ↦ `C18_highlight_instance`,
   `C18_highlight_current_state`, `C18_highlight_class`
 * the graph exists for every well-formed machine ↦ `C18_total`
+* (stretch) the text of an edge label ↦ `C18_edge_label_text`
 
 All proofs are by structural induction over the state list / transition lists (in
 `SMV.Lemmas.Diagram`) — no bound on the size of the machine.
@@ -337,6 +338,22 @@ theorem C18_total {m : Machine} (sub : Subject) (hini : ∃ s ∈ m.states, s.in
     obtain ⟨c, hc⟩ := lookupValue_isSome_of_mem hs rfl
     simp only [hc]
     exact ⟨_, rfl⟩
+
+/-! ## The text of an edge label (stretch) -/
+
+/-- **An edge label is the event names separated by blanks; when the transition has guards a second
+line `[g1, !g2, …]` follows, an `unless` guard written with a leading `!`.** -/
+theorem C18_edge_label_text (l : EdgeLabel) :
+    (l.guards = [] → renderEdgeLabel l = " ".intercalate l.events) ∧
+    (", ".intercalate (l.guards.map renderGuard) ≠ "" →
+      renderEdgeLabel l =
+        " ".intercalate l.events ++ "\n[" ++ ", ".intercalate (l.guards.map renderGuard) ++ "]") ∧
+    (∀ n, renderGuard ⟨n, true⟩ = n ∧ renderGuard ⟨n, false⟩ = "!" ++ n) := by
+  refine ⟨?_, ?_, fun n => ⟨rfl, rfl⟩⟩
+  · intro h
+    simp [renderEdgeLabel, joinWith, h]
+  · intro h
+    simp [renderEdgeLabel, joinWith, h]
 
 /-! ## Non-vacuity: a concrete machine with a final state, an internal transition, guards, a
 multi-event transition and two transitions between one pair of states -/
